@@ -63,16 +63,18 @@ def main():
     quick = rep.tier == 'quick'
     cases = (flavour_matrix() + F.time_enumerated(rep.tier) + F.cf_enumerated() + F.cf_random(rep.seed, 80 if quick else 800)
              + F.fault_templates() + F.seq_enumerated()[::2 if quick else 1] + F.time_random(rep.seed, 60 if quick else 600)
-             + F.scope_templates()[::3 if quick else 1])
+             + F.scope_templates()[::3 if quick else 1] + F.op_positions())
     widths = [2, 3] if quick else [2, 3, 4, 8]
     tasks = []
     for W in widths:
         for i, c in enumerate(cases):
-            if W != 2 and i % 3:
-                continue
+            if W != 2 and (i % 3 or 'write-int' in c.name or 'writeln-int' in c.name):
+                continue        # write(int) of a symbolic value does not bit-blast above 16 bits
             tasks.append(case_to_task(c.with_(word=W, stack=96), mode='halt', max_steps=8000, allow_reject=('random' in c.name or 'cf/' in c.name)))
     if quick:
         for i, c in enumerate(cases[::9]):
+            if 'write-int' in c.name or 'writeln-int' in c.name:
+                continue
             tasks.append(case_to_task(c.with_(word=3 + i % 2, stack=96), mode='halt', max_steps=8000, allow_reject=True))
     nfree = [0]
 
@@ -83,7 +85,7 @@ def main():
     rep.cov['transitions'] = rep.counts['instructions']
     rep.cov['traces_validated_against_impl'] = rep.counts['paths']
     rep.cov['unchecked_runs_under_fault_free_assumption'] = nfree[0]
-    rep.rule = ('families: flavour matrix (ordinary/defeat/you function and try body x construct x handler kind), T-time, T-cf, T-fault, T-seq, T-scope, random; '
+    rep.rule = ('families: flavour matrix (ordinary/defeat/you function and try body x construct x handler kind), T-time, T-cf, T-fault, T-seq, T-scope, every operator in every position (incl. write(int) of a symbolic word at 16 bit), random; '
                 'each compiled checked and unchecked; the unchecked build is executed once per fault-free checked path under that path condition')
     rep.functions_encoded = ['every `halt`/`hCC` in the emitted code of each template: goto, bool_expr_branch + halt_inversion, IntToBool normalisation, try/undo/stop/preempt lowering, '
                              'truth_is_defeat, speculation, stdlib loops and error stubs']
